@@ -10,7 +10,7 @@ from ._wcommon import (ASSUMPTIONS, COMPONENTS_REAL, COMPONENTS_STUB, Hist, Viol
 from ._wcommon import abstract_states  # noqa: F401,E402
 
 ID = "C05"
-RUNS = {"quick": 8000, "thorough": 250000}
+RUNS = {"quick": 12000, "thorough": 250000}
 BUDGET_S = {"quick": 60, "thorough": 900}
 RULE = ("seeded scenario scripts with a stop event at every kind of instant (absolute, or n-th take/enter/exit/enqueue + "
         "{0,1us,poll-1,poll,poll+1,random}), (A,P,N,wait_tasks_timeout) configurations, short/long/never-ending tasks; "
